@@ -17,6 +17,8 @@ var libPure = map[string]bool{
 	"(image.Rectangle).Size": true, "(image.Rectangle).Dx": true, "(image.Rectangle).Dy": true,
 	"fmt.Fprintf": true, "fmt.Fprint": true, "fmt.Fprintln": true, "(io.Writer).Write": true,
 	"(*bytes.Buffer).Write": true, "(*bytes.Buffer).WriteString": true, "(*strings.Builder).WriteString": true, "(*bytes.Buffer).WriteByte": true,
+	"(image/color.Model).Convert": true, "(image.Image).ColorModel": true, "(image/draw.Image).ColorModel": true, "(golang.org/x/image/draw.Image).ColorModel": true,
+	"(image.Image).At": true, "(image/draw.Image).At": true, "(golang.org/x/image/draw.Image).At": true, "(image/color.Color).RGBA": true,
 	"fmt.Println": true, "fmt.Printf": true, "fmt.Print": true, "log.Println": true, "log.Printf": true,
 	"(*bytes.Buffer).Bytes": true, "(*bytes.Buffer).String": true, "(*bytes.Buffer).Len": true, "(*strings.Builder).String": true, "(*strings.Builder).Len": true,
 	"fmt.Errorf": true, "fmt.Sprintf": true, "fmt.Sprint": true, "fmt.Sprintln": true, "errors.New": true,
@@ -111,7 +113,7 @@ func (x *Exec) callLibrary(s *State, fn *types.Func, recv *Term, args []*Term, c
 		if full == "(io.Writer).Write" || strings.HasPrefix(full, "(*") {
 			argi = 0
 		}
-		if argi < len(call.Args) && (full != "fmt.Fprintf" || len(call.Args) == 2) {
+		if argi < len(call.Args) {
 			a := unparen(call.Args[argi])
 			if conv, ok := a.(*ast.CallExpr); ok && len(conv.Args) == 1 {
 				if tv, ok := x.tv(conv.Fun); ok && tv.IsType() {
@@ -120,9 +122,7 @@ func (x *Exec) callLibrary(s *State, fn *types.Func, recv *Term, args []*Term, c
 			}
 			if tv, ok := x.tv(a); ok && tv.Value != nil && tv.Value.Kind() == constant.String {
 				lit := constant.StringVal(tv.Value)
-				if full != "fmt.Fprintf" || !strings.Contains(lit, "%") {
-					entry = lit
-				}
+				entry = lit // a format with verbs is recorded as the format itself
 			}
 		}
 		if full != "(*bytes.Buffer).WriteByte" || true {
@@ -138,6 +138,10 @@ func (x *Exec) callLibrary(s *State, fn *types.Func, recv *Term, args []*Term, c
 		e := x.freshVar("err", IfaceSort)
 		s.assume(Not(Eq(Field(e, 0), IntLit(0))))
 		return []*Term{e}, true
+	case "(image/color.Model).Convert", "(image.Image).ColorModel", "(image/draw.Image).ColorModel", "(golang.org/x/image/draw.Image).ColorModel",
+		"(image.Image).At", "(image/draw.Image).At", "(golang.org/x/image/draw.Image).At", "(image/color.Color).RGBA":
+		libUsed[full] = "read-only query of an image / colour value: returns some value, writes nothing"
+		return x.havocResults(s, call), true
 	case "fmt.Println", "fmt.Printf", "fmt.Print", "log.Println", "log.Printf":
 		libUsed[full] = "writes to the process's standard streams only: nothing reachable from the verified state"
 		return x.havocResults(s, call), true
